@@ -153,6 +153,35 @@ def check_gls(st, backend, kind, start, what):
                     if getattr(c, "sigma", nsig) != nsig:
                         out.append(("Definitions: contour object reports another sigma than requested %s" % tag, dict(requested=nsig, reported=c.sigma)))
                         return out
+        # the public route: ContoursProfiler.get_profile / get_contours must give the same answers
+        if backend == "iminuit" and len(free) == 2:
+            from kafe2.fit.tools.contours_profiler import ContoursProfiler
+            cp = ContoursProfiler(fit, profile_points=5, profile_subtract_min=False, contour_points=12, contour_sigma_values=(1.0, 2.0),
+                                  contour_method_kwargs=dict(numpoints=12))
+            for j in free:
+                prof = np.asarray(cp.get_profile("p%d" % (j + 1), sigma=2.0), dtype=float)
+                exp_y = fmin + (prof[0] - sol[j]) ** 2 / cov[j, j]
+                if not np.allclose(prof[1], exp_y, rtol=2e-3, atol=0.03):
+                    out.append(("Definitions: ContoursProfiler.get_profile differs from the cost re-minimised with the parameter pinned %s" % tag,
+                                dict(parameter=j + 1, x=prof[0].tolist(), expected=exp_y.tolist(), actual=prof[1].tolist(), scenario=sc)))
+                    return out
+            sub = np.asarray(cp.get_profile("p1", sigma=2.0, subtract_min=True), dtype=float)
+            if not np.allclose(sub[1], (sub[0] - sol[0]) ** 2 / cov[0, 0], rtol=2e-3, atol=0.03):
+                out.append(("Definitions: ContoursProfiler.get_profile(subtract_min=True) is not the rise above the minimum %s" % tag,
+                            dict(x=sub[0].tolist(), actual=sub[1].tolist(), scenario=sc)))
+                return out
+            for clo, c in cp.get_contours("p1", "p2"):
+                if c is None:
+                    continue
+                pts = np.asarray(c.xy_points, dtype=float)
+                if pts.shape[0] == 2:
+                    pts = pts.T
+                dq = pts - sol[None, :]
+                rise = np.einsum("ni,ij,nj->n", dq, np.linalg.inv(cov), dq)
+                if not np.allclose(rise, clo.sigma ** 2, rtol=0.06, atol=0.06):
+                    out.append(("Definitions: ContoursProfiler.get_contours: %g-sigma contour not where the profile has risen by %g %s" % (clo.sigma, clo.sigma ** 2, tag),
+                                dict(rise=rise.tolist(), scenario=sc)))
+                    return out
     return out
 
 
